@@ -114,7 +114,10 @@ def run(chk, repo, tier):
         # the segment slice s and index n
         oa = off.single_atom() if isinstance(off, Poly) else None
         if oa is None or not is_app(oa, 'call:helper.slice_offset'):
-            raise AnalysisError('Plane.multiply: phasor offset is not slice_offset(...)')
+            # a Field built some other way (e.g. a copy of an incoming field on a shortcut path): nothing to say about slices
+            chk.undecided('C03-d', 'D-index', f.key, f'amplitude, mask and OPD use the segment slice [field #{k}]',
+                          f'field built with offset {fmt(off)[:60]}, not from a segment slice', f.loc(e.node))
+            continue
         ob = {x.items[0].value: x.items[1] for x in oa[2]}
         s = ob.get('slice')
         sa = s.single_atom() if isinstance(s, Poly) else None
